@@ -958,6 +958,10 @@ func handlerFactory(h *ssa.Function) (lit *ssa.Function, idx int, ok bool) {
 	eng.Instrs(h, func(in ssa.Instruction) {
 		switch x := in.(type) {
 		case *ssa.Return:
+			if len(x.Results) != 1 {
+				bad = true
+				return
+			}
 			v := eng.Origin(x.Results[0])
 			if ct, isCT := v.(*ssa.ChangeType); isCT {
 				v = eng.Origin(ct.X)
